@@ -536,11 +536,13 @@ func lemmaOriginRoundTrip(p []byte) ([]byte, int) {
 //@   decreases ite(is(seq, Fasta), 0, 1)
 
 // The value the FASTA parser builds from the tokens go-pars hands it: the description is the
-// text of the '>' line, the residues are the body split at line feeds and joined with nothing.
+// text of the '>' line, the residues are the body split at line feeds, each line without a
+// trailing carriage return, joined with nothing.
 //@ func FastaParser$1(result *pars.Result) (err error)
 //@   prop C17
 //@   requires !isnil(result) && len(result.Children) >= 3
 //@   callpre Split(s0, sep0): sameslice(s0, result.Children[2].Token) && len(sep0) == 1 && sep0[0] == 10
+//@   callpre TrimSuffix(s0, x0): sameslice(s0, lines[i]) && len(x0) == 1 && x0[0] == 13
 //@   callpre Join(l0, sep0): sameslice(l0, lines) && len(sep0) == 0
 //@   callpre SetValue(v0): is(v0, Fasta) && v0.(Fasta).Desc == desc && sameslice(v0.(Fasta).Data, data)
 //@   ensures isnil(err)
